@@ -12,6 +12,7 @@ from typing import Pattern
 from typing_extensions import Never
 
 from .exceptions import LiquidSyntaxError
+from .limits import to_int
 from .token import BlockCommentToken
 from .token import CommentToken
 from .token import ContentToken
@@ -320,7 +321,7 @@ class Lexer:
                     self.path_stack[-1].stop = self.pos
                 elif self.env.shorthand_indexes:
                     if match := self.RE_INDEX.match(self.source, self.pos):
-                        self.path_stack[-1].path.append(int(match.group()))
+                        self.path_stack[-1].path.append(to_int(match.group()))
                         self.pos += match.end() - match.start()
                         self.start = self.pos
                     else:
@@ -367,7 +368,7 @@ class Lexer:
                         self.path_stack[-1].stop = self.start
 
                 elif match := self.RE_INDEX.match(self.source, self.pos):
-                    self.path_stack[-1].path.append(int(match.group()))
+                    self.path_stack[-1].path.append(to_int(match.group()))
                     self.pos += match.end() - match.start()
                     self.start = self.pos
                     self.ignore_whitespace()
